@@ -212,6 +212,27 @@ theorem diagnose_none_iff (es : List Exp) (c : Call)
   rw [← first_deviation_diagnosis es c 0 [] hclean hplain hun hwfe hwf]
   exact (call_succeeds_iff es c 0 [] hclean hplain hun hwfe hwf).1
 
+/-! ### the runs of the theorems are what the driver's per-scope functions compute -/
+
+/-- **model glue (calls).** `callFull` — the call statement all theorems talk about — is what the
+    scope-level functions used by the correspondence driver compute (`Scope.actualCall`, the steps
+    through `Scope.seg`, the finishing `Scope.checkLast`), on a `MockSupport` that is enabled, does
+    not ignore the function, and has no call in flight: same failure, and same expectation list
+    when the call does not fail; the call gets order number `actualCallOrder_ + 1`. -/
+theorem scope_call_is_callFull (sc : Scope) (fn : String) (segs : List Seg) (buf : List UInt8)
+    (hlast : sc.last = none) (hen : sc.enabled = true) (hioc : sc.ioc = false) :
+    (sc.callNow fn segs buf).2 = (callFull sc.es (sc.actualOrder + 1) (sc.fullName fn) segs buf).fail ∧
+    ((sc.callNow fn segs buf).2 = none →
+      (sc.callNow fn segs buf).1.es = (callFull sc.es (sc.actualOrder + 1) (sc.fullName fn) segs buf).es ∧
+      (sc.callNow fn segs buf).1.actualOrder = sc.actualOrder + 1) :=
+  scope_callNow_is_callFull sc fn segs buf hlast hen hioc
+
+/-- **model glue (end of test).** `mock().checkExpectations()` on the global mock alone, with no
+    call in flight, is `endCheck`. -/
+theorem check_is_endCheck (sc : Scope) (hname : sc.name = "") (hlast : sc.last = none) :
+    (World.check { glob := sc, subs := [] } "").2 = endCheck sc.es :=
+  world_check_is_endCheck sc hname hlast
+
 /-! ### the hypotheses are what the API produces -/
 
 /-- `expectOneCall` / `expectNCalls` / `expectNoCall` with any modifiers leave clean matching
